@@ -145,6 +145,30 @@ def run(ctx):
                 ctx.hist("outcomes", w[0] + ":" + o.split()[0])
             for c, o in list(zip(lines[1:], outs[1:]))[:8]:
                 ctx.sample({"case": c, "implementation": o})
+    # thread::sleep retry loop against the model's sleepLoop, over a scripted nanosleep (sc-shim)
+    r = ctx.rng
+    scripts = []
+    for i in range(300 if ctx.tier == "quick" else 5000):
+        req = r.choice([0, 1, 999999999, 1000000000, 1000000001, r.below(10**10)])
+        parts = []
+        for _ in range(r.below(5)):
+            parts.append("eintr %d %d" % (r.choice([0, 1, req // 2, req, req + 5, r.below(10**9)]), r.choice([0, 0, 1, r.below(1000)])))
+        k = r.below(4)
+        if k == 0:
+            parts.append("done %d" % r.below(100))
+        elif k == 1:
+            parts.append("err %d" % r.choice([14, 22]))
+        scripts.append("sleep %d %s" % (req, " ".join(parts)))
+
+    def judge_sleep(c, o):
+        w, ow = c.split(), o.split()
+        if ow[0] == "ok" and int(ow[1]) < int(w[1]):
+            return "sleep returned Ok after %s ns < requested %s ns" % (ow[1], w[1])
+        return None
+    exe, _ = C.cargo_build(ctx, "c19", release=False)
+    C.correspond(ctx, "sleep-script", scripts, [exe], drv, judge_sleep, lambda c, o, why: {"op": "sleep", "kind": "short"})
+    for s_ in scripts[:2]:
+        ctx.sample({"case": s_})
     # observations on the real clock (implementation-vs-oracle, reported separately from the model tie)
     exe, _ = C.cargo_build(ctx, "c19", release=False)
     k = 100000 if ctx.tier == "quick" else 2000000
@@ -153,7 +177,7 @@ def run(ctx):
     if outs and outs[0].split()[1] != "0":
         ctx.violation({"kind": "monotonic-decreased"}, {"observation": outs[0], "readings": k})
     sl = [0, 1, 1000, 50000, 999999, 1000000, 3000000] + [ctx.rng.below(5_000_000) for _ in range(10 if ctx.tier == "quick" else 200)]
-    rc, outs, _ = C.run_filter([exe], ["sleep %d" % d for d in sl], timeout=600)
+    rc, outs, _ = C.run_filter([exe], ["realsleep %d" % d for d in sl], timeout=600)
     short = [(d, o) for d, o in zip(sl, outs) if not (o.startswith("slept ") and int(o.split()[1]) >= d)]
     ctx.extra["sleep_observation"] = {"requests": len(sl), "shorter_than_requested": len(short)}
     for d, o in short[:3]:
